@@ -206,7 +206,13 @@ class BaseStorage:
             tags=tags,
         )
         event.sign(self.service_privatekey.hex())
-        await self.add_event(event.to_json_object())
+        # the relay's own records (role assignments, NIP-05 identities) are written by the relay
+        # itself, not by an anonymous client: they must not be refused when `save` needs a role
+        service_token = {
+            "pubkey": self.service_pubkey,
+            "roles": set().union(*self.authenticator.actions.values()),
+        }
+        await self.add_event(event.to_json_object(), auth_token=service_token)
         return event
 
     async def get_auth_roles(self, pubkey: str):
